@@ -323,7 +323,20 @@ def preprocess_lowercases(ev, call):
     for n in ast.walk(fn):
         if isinstance(n, ast.If) and isinstance(n.test, ast.UnaryOp) and isinstance(n.test.op, ast.Not) \
                 and isinstance(n.test.operand, ast.Name) and n.test.operand.id == flag:
-            return any(isinstance(m, ast.Call) and isinstance(m.func, ast.Attribute) and m.func.attr == 'lower' for s in n.body for m in ast.walk(s))
+            return any(_lowers(c, s, 2) for s in n.body)
+    return False
+
+
+def _lowers(cls, node, depth):
+    """does the statement call str.lower(), directly or through a helper method of the same class (depth-bounded)?"""
+    for m in ast.walk(node):
+        if isinstance(m, ast.Call) and isinstance(m.func, ast.Attribute):
+            if m.func.attr == 'lower':
+                return True
+            if depth > 0 and isinstance(m.func.value, ast.Name) and m.func.value.id in (cls.name, 'self', 'cls') \
+                    and m.func.attr in cls.methods:
+                if any(_lowers(cls, st, depth - 1) for st in cls.methods[m.func.attr].body):
+                    return True
     return False
 
 
